@@ -27,6 +27,7 @@ type Prog struct {
 	// per-function source-order loop info cache
 	loops map[*ssa.Function]*LoopForest
 	// type ids
+	srcLines map[string][]string
 	tids    map[string]int
 	tidList []types.Type
 }
@@ -64,7 +65,7 @@ func LoadProg(repo string, tags string) (*Prog, error) {
 	}
 	prog, _ := ssautil.AllPackages(pkgs, ssa.GlobalDebug)
 	prog.Build()
-	p := &Prog{Fset: fset, Pkgs: pkgs, SSA: prog, RepoDir: repo, Funcs: map[string]*ssa.Function{}, loops: map[*ssa.Function]*LoopForest{}, tids: map[string]int{}}
+	p := &Prog{Fset: fset, Pkgs: pkgs, SSA: prog, RepoDir: repo, Funcs: map[string]*ssa.Function{}, loops: map[*ssa.Function]*LoopForest{}, tids: map[string]int{}, srcLines: map[string][]string{}}
 	for _, sp := range prog.AllPackages() {
 		switch sp.Pkg.Path() {
 		case mainPath:
@@ -281,3 +282,47 @@ func (p *Prog) LoopsOf(fn *ssa.Function) *LoopForest {
 
 // isBackEdge reports whether from->to is a back edge.
 func isBackEdge(from, to *ssa.BasicBlock) bool { return to.Dominates(from) }
+
+// implicitRecvNonNil: method with a pointer receiver whose body never compares the receiver with nil.
+// Such methods get the implicit precondition `receiver != nil`, assumed at entry and checked at every call site.
+func (p *Prog) implicitRecvNonNil(fn *ssa.Function) bool {
+	if fn.Signature.Recv() == nil || len(fn.Params) == 0 {
+		return false
+	}
+	if _, ok := fn.Params[0].Type().Underlying().(*types.Pointer); !ok {
+		return false
+	}
+	recv := fn.Params[0]
+	// values derived directly from the receiver (loads from the cell that holds it when captured)
+	derived := map[ssa.Value]bool{recv: true}
+	for _, b := range fn.Blocks {
+		for _, in := range b.Instrs {
+			if st, ok := in.(*ssa.Store); ok && st.Val == recv {
+				if a, ok := st.Addr.(*ssa.Alloc); ok {
+					if refs := a.Referrers(); refs != nil {
+						for _, r := range *refs {
+							if u, ok := r.(*ssa.UnOp); ok && u.Op == token.MUL {
+								derived[u] = true
+							}
+						}
+					}
+				}
+			}
+		}
+	}
+	for _, b := range fn.Blocks {
+		for _, in := range b.Instrs {
+			if bo, ok := in.(*ssa.BinOp); ok && (bo.Op == token.EQL || bo.Op == token.NEQ) {
+				if derived[bo.X] || derived[bo.Y] {
+					if c, ok := bo.Y.(*ssa.Const); ok && c.Value == nil {
+						return false
+					}
+					if c, ok := bo.X.(*ssa.Const); ok && c.Value == nil {
+						return false
+					}
+				}
+			}
+		}
+	}
+	return true
+}
